@@ -115,3 +115,15 @@ chk("C11",
     "Heat-consumer mode logic (adaption_* methods) is exercised by the oracle, not modelled; known finding: QE_TR/QE_DT consumers "
     "in sequential mode report a duty inconsistent with their own temperatures.",
     "Lean 4 proof over translated thermal kernel + incidence algebra; duty / closure oracle search", "8/C11")
+chk("C12",
+    "Lean theorems: (1) no_stale_read - over the access sequence of pipeflow(net, ...) that a static scanner regenerates from the "
+    "current source on every run (calls inlined through pipeflow.py, pipeflow_setup.py, result_extraction.py, "
+    "build_system_matrix.py, derivative_calculation.py; branches and loops scoped; function-valued parameters and constant "
+    "arguments resolved) every read / in-place update of an internal net key is preceded on every path by a (re)binding of that "
+    "key within the same call, decided by kernel evaluation; (2) purity - any step sequence of that shape ends in a state that "
+    "does not depend on the initial values of the internal keys. A dynamic trace of real runs cross-checks the scanner. Search: "
+    "call histories with all modes, engines, failing runs and undone edits; snapshots of all user entries; final run bit-identical "
+    "to a fresh copy and to a repetition; heat-after-hydraulics equals sequential.",
+    "The scanner folds the documented opt-ins transient=False and reuse_internal_data=False. Aliasing of numpy views (input "
+    "mutation) and bit-repeatability are runtime behaviour: search only.",
+    "Lean 4 proof (kernel-decided dataflow check over a source-generated event list + purity lemma); history search", "8/C12")
